@@ -15,7 +15,12 @@ subprocess.check_call(['git', '-C', '/repo', 'apply', os.path.join(d, 'patch.dif
 res = {}
 try:
     for p in props:
-        r = subprocess.run([os.path.join(V, 'check'), p, '--tier', tier], cwd=V, capture_output=True, text=True)
+        try:
+            r = subprocess.run([os.path.join(V, 'check'), p, '--tier', tier], cwd=V, capture_output=True, text=True, timeout=1500)
+        except subprocess.TimeoutExpired as e:
+            import types
+            subprocess.run('pkill -f "^/venv/bin/python /verif/check %s" ; pkill -x pffmodel' % p, shell=True)
+            r = types.SimpleNamespace(returncode=124, stdout='CHECK TIMED OUT after 1500 s (the change makes the implementation or the check hang)\n')
         lines = [l for l in r.stdout.split('\n') if l.startswith('VIOLATION')]
         res[p] = {'exit': r.returncode, 'violations': lines[:3], 'summary': r.stdout.strip().split('\n')[-1][:300]}
         # keep the first replay as a sample of what was reported
